@@ -166,9 +166,9 @@ type runOutcome struct {
 }
 
 func toPolicy(p proto.PolicyRec) simrt.Policy {
-	kind := map[string]int{"seq": simrt.PolSeq, "walk": simrt.PolWalk, "pct": simrt.PolPCT, "herd": simrt.PolHerd, "stall": simrt.PolStall}[p.Kind]
+	kind := map[string]int{"seq": simrt.PolSeq, "walk": simrt.PolWalk, "pct": simrt.PolPCT, "herd": simrt.PolHerd, "stall": simrt.PolStall, "quantum": simrt.PolQuantum}[p.Kind]
 	return simrt.Policy{Kind: kind, Seed: p.Seed, PShared: p.PShared, PAPI: p.PAPI, PPlain: p.PPlain, PBound: p.PBound,
-		Depth: p.Depth, EstSteps: p.EstSteps, HerdAt: p.HerdAt, StallTask: p.StallTask, StallOp: p.StallOp, StallStep: p.StallStep,
+		Depth: p.Depth, Quantum: p.Quantum, EstSteps: p.EstSteps, HerdAt: p.HerdAt, StallTask: p.StallTask, StallOp: p.StallOp, StallStep: p.StallStep,
 		GCSteps: p.GCSteps, ClockSteps: p.ClockSteps, ClockDeltas: p.ClockDeltas, First: -1}
 }
 
